@@ -649,7 +649,6 @@ func syntheticInputs() []example {
 	return out
 }
 
-
 // setTaxIDCodes sets (or adds) the code of every tax_id object in a document.
 func setTaxIDCodes(v any, code string) int {
 	n := 0
